@@ -117,33 +117,59 @@ impl Case {
     })
   }
 
+  /// The label may carry "dress" tokens: keys and spellings that do not change what the torrent says about its content
+  /// (`+dress-created-by`, `+dress-utf8-keys`, `+dress-md5-upper`), and `+alt=<i>=<a|b|c>`: entry `i` carries a
+  /// `path.utf-8` list (a key imdl does not know) that differs from its `path`.
   pub fn torrent_bytes(&self) -> Vec<u8> {
+    let has = |t: &str| self.label.split('+').any(|x| x == t);
+    let alt: Option<(usize, Vec<String>)> = self.label.split('+').find_map(|t| {
+      let r = t.strip_prefix("alt=")?;
+      let (i, comps) = r.split_once('=')?;
+      Some((i.parse().ok()?, comps.split('|').map(|s| s.to_string()).collect()))
+    });
+    let md5_text = |m: &Vec<u8>| if has("dress-md5-upper") { hex(m).to_uppercase() } else { hex(m) };
     let mut info: Vec<(&str, B)> = vec![
       ("name", B::s(&self.name)),
       ("piece length", B::Int(self.p as i128)),
       ("pieces", B::Bytes(self.pieces.clone())),
     ];
+    if has("dress-utf8-keys") {
+      info.push(("name.utf-8", B::s(&self.name)));
+    }
     if self.single {
       let f = &self.files[0];
       info.push(("length", B::Int(f.len as i128)));
       if let Some(m) = &f.md5 {
-        info.push(("md5sum", B::s(&hex(m))));
+        info.push(("md5sum", B::s(&md5_text(m))));
       }
     } else {
       let files = self
         .files
         .iter()
-        .map(|f| {
+        .enumerate()
+        .map(|(i, f)| {
           let mut d = vec![("length", B::Int(f.len as i128)), ("path", B::List(f.path.iter().map(|c| B::s(c)).collect()))];
           if let Some(m) = &f.md5 {
-            d.push(("md5sum", B::s(&hex(m))));
+            d.push(("md5sum", B::s(&md5_text(m))));
+          }
+          match &alt {
+            Some((j, comps)) if *j == i => d.push(("path.utf-8", B::List(comps.iter().map(|c| B::s(c)).collect()))),
+            _ if has("dress-utf8-keys") => d.push(("path.utf-8", B::List(f.path.iter().map(|c| B::s(c)).collect()))),
+            _ => {}
           }
           B::dict(d)
         })
         .collect();
       info.push(("files", B::List(files)));
     }
-    B::dict(vec![("info", B::dict(info))]).encode()
+    let mut top = vec![("info", B::dict(info))];
+    if has("dress-created-by") {
+      top.push(("created by", B::s("imdl/0.1.14")));
+      top.push(("comment", B::s("made by the program itself, so surely fine")));
+      top.push(("creation date", B::Int(1_600_000_000)));
+      top.push(("encoding", B::s("UTF-8")));
+    }
+    B::dict(top).encode()
   }
 
   fn key(&self, f: &TFile) -> String {
@@ -626,6 +652,12 @@ pub fn gen_c03(rng: &mut Rng) -> Case {
       }
     }
   }
+  for (t, den) in [("dress-created-by", 5u64), ("dress-utf8-keys", 5), ("dress-md5-upper", 4)] {
+    if rng.chance(1, den) {
+      label += "+";
+      label += t;
+    }
+  }
   c.label = label;
   c
 }
@@ -658,7 +690,7 @@ pub fn gen_c13(rng: &mut Rng) -> Case {
   let outside = outside.as_str();
   target.push(outside.into());
   target.push("secret".into());
-  let kind = rng.below(16);
+  let kind = rng.below(20);
   let ups = vec!["..".to_string(); depth_up];
   // a long name made of multi-byte characters (diagnostics that abbreviate must not cut inside a character)
   let long_name = |rng: &mut Rng| -> String {
@@ -682,7 +714,13 @@ pub fn gen_c13(rng: &mut Rng) -> Case {
     11 => vec![long_name(rng)].into_iter().chain(ups.iter().cloned()).chain(["..".to_string(), outside.to_string(), "secret".to_string()]).collect(),
     // an empty component ahead of the escape (a screen that trips over the empty one must still refuse, not crash)
     13 => vec![String::new()].into_iter().chain(ups.iter().cloned()).chain([outside.to_string(), "secret".to_string()]).collect(),
-    14 | 15 => ups.iter().cloned().chain([outside.to_string(), "secret".to_string()]).collect(),
+    14 | 15 | 19 => ups.iter().cloned().chain([outside.to_string(), "secret".to_string()]).collect(),
+    // the parent-directory name padded with white space: an ordinary (if odd) name, so the file is simply not there
+    17 => ups.iter().map(|u| format!("{u}{}", *rng.pick(&[" ", "\t", "  "]))).chain([outside.to_string(), "secret".to_string()]).collect(),
+    // separators and a line feed in one component
+    18 => vec![format!("{}/{outside}/secret\n", ups.join("/"))],
+    // the listed path is harmless and absent; a `path.utf-8` list beside it (a key imdl does not know) escapes
+    16 => vec!["readme.txt".to_string()],
     12 => {
       // absolute component after an ordinary one (pushing an absolute path replaces everything before it)
       vec!["sub".to_string(), "<ABS>".to_string()]
@@ -715,6 +753,10 @@ pub fn gen_c13(rng: &mut Rng) -> Case {
   for blk in concat.chunks(p as usize) {
     c.pieces.extend_from_slice(&sha1(blk));
   }
+  if kind == 19 {
+    // an entry whose path is the empty list, listed first
+    c.files.insert(0, TFile { path: vec![], len: 0, md5: None });
+  }
   if kind == 14 || kind == 15 {
     // another entry with an empty / dot component, listed first
     c.tree.insert("docs".into(), Node::Dir);
@@ -722,6 +764,16 @@ pub fn gen_c13(rng: &mut Rng) -> Case {
     c.files.insert(0, TFile { path: odd, len: 0, md5: None });
   }
   c.label = format!("escape-kind-{kind}-at-{pos}{}{}", if splice { "" } else { "-pieces-without-it" }, if outside == "outside" { "" } else { "-into-namesake-sibling" });
+  if kind == 16 {
+    let at = if kind == 19 { pos + 1 } else { pos };
+    c.label += &format!("+alt={at}={}", ups.iter().cloned().chain([outside.to_string(), "secret".to_string()]).collect::<Vec<_>>().join("|"));
+  }
+  for (t, den) in [("dress-created-by", 3u64), ("dress-md5-upper", 5)] {
+    if rng.chance(1, den) {
+      c.label += "+";
+      c.label += t;
+    }
+  }
   c
 }
 
@@ -792,7 +844,119 @@ pub fn run_c03(ctx: &Ctx) -> Report {
     }
   };
   run_cases(ctx, "C03", cases, &mut report);
+  verify_scenarios(ctx, &mut report);
   report
+}
+
+/// States of the world around `verify` that the generated cases do not reach; one scenario each, with the verdict the
+/// independent recomputation gives. Replayable by label.
+fn verify_scenarios(ctx: &Ctx, report: &mut Report) {
+  let only: Option<Vec<String>> = super::replay_cases(ctx).map(|rc| rc.iter().filter_map(|v| v.get("scenario").and_then(|s| s.as_str()).map(|s| s.to_string())).collect());
+  let multi = |name: &str, p: usize, files: &[(String, Vec<u8>)]| -> Vec<u8> {
+    let mut concat = Vec::new();
+    for (_, d) in files {
+      concat.extend_from_slice(d);
+    }
+    let mut pieces = Vec::new();
+    for blk in concat.chunks(p) {
+      pieces.extend_from_slice(&sha1(blk));
+    }
+    let fl = files.iter().map(|(n, d)| B::dict(vec![("length", B::Int(d.len() as i128)), ("path", B::List(n.split('/').map(B::s).collect()))])).collect();
+    B::dict(vec![("info", B::dict(vec![("name", B::s(name)), ("piece length", B::Int(p as i128)), ("pieces", B::Bytes(pieces)), ("files", B::List(fl))]))]).encode()
+  };
+  let single = |name: &str, p: usize, data: &[u8], stray: usize| -> Vec<u8> {
+    let mut pieces = Vec::new();
+    for blk in data.chunks(p) {
+      pieces.extend_from_slice(&sha1(blk));
+    }
+    pieces.extend(std::iter::repeat(7u8).take(stray));
+    B::dict(vec![("info", B::dict(vec![("name", B::s(name)), ("piece length", B::Int(p as i128)), ("pieces", B::Bytes(pieces)), ("length", B::Int(data.len() as i128))]))]).encode()
+  };
+  let mut run = |label: &str, want_exit: i32, must_name: Vec<String>, f: &dyn Fn(&Sandbox) -> crate::run::Out| {
+    if let Some(o) = &only {
+      if !o.iter().any(|x| x == label) {
+        return;
+      }
+    }
+    let sb = Sandbox::new(&ctx.work, "c03s");
+    let out = f(&sb);
+    let case = json!({"scenario": label});
+    report.case(Some(fnv_str(label)));
+    report.hit(&format!("scenario:{label}"));
+    let err = out.stderr_s();
+    if out.signal.is_some() || out.code != Some(want_exit) {
+      report.fail("property", "verify-verdict", case, format!("exit {:?} (signal {:?}), the recomputation gives {want_exit}: {}", out.code, out.signal, err.lines().last().unwrap_or("")));
+    } else if let Some(missing) = must_name.iter().find(|n| !err.contains(n.as_str())) {
+      report.fail("property", "verify-names-files", case, format!("the failing entry `{missing}` is not named in the report"));
+    }
+  };
+  // more listed files than the process may hold open at once: each is opened, read and closed in turn
+  let many: Vec<(String, Vec<u8>)> = (0..200).map(|i| (format!("f{i:03}"), vec![b'a' + (i % 26) as u8])).collect();
+  run("two-hundred-files-with-forty-descriptors", 0, vec![], &|sb| {
+    sb.write("t.torrent", &multi("data", 16, &many));
+    for (n, d) in &many {
+      sb.write(&format!("data/{n}"), d);
+    }
+    let script = "ulimit -n 40; exec \"$0\" \"$@\"";
+    let mut c = std::process::Command::new("sh");
+    c.arg("-c").arg(script).arg(&ctx.imdl).args(["torrent", "verify", "--input", "t.torrent", "--content", "data"]).current_dir(&sb.root).env("TERM", "dumb");
+    let o = c.output().expect("sh");
+    use std::os::unix::process::ExitStatusExt;
+    crate::run::Out { code: o.status.code(), signal: o.status.signal(), stdout: o.stdout, stderr: o.stderr, timed_out: false }
+  });
+  // thirty listed files, all gone: every one of them is named
+  let thirty: Vec<(String, Vec<u8>)> = (0..30).map(|i| (format!("cd{}/track{i:02}.flac", i % 3), vec![i as u8; 3])).collect();
+  run("thirty-files-missing-all-named", 1, thirty.iter().map(|f| f.0.clone()).collect(), &|sb| {
+    sb.write("t.torrent", &multi("data", 16, &thirty));
+    sb.mkdir("data");
+    Cmd::new(&ctx.imdl, &["torrent", "verify", "--input", "t.torrent", "--content", "data"]).cwd(&sb.root).run()
+  });
+  // the torrent is reached through a link in another directory: the default content is looked for beside the path given
+  for (good_beside_link, want) in [(true, 0), (false, 1)] {
+    run(if good_beside_link { "linked-torrent-content-beside-the-link" } else { "linked-torrent-content-beside-the-target-only" }, want, vec![], &|sb| {
+      sb.write("store/foo.torrent", &single("foo", 4, b"0123456789", 0));
+      sb.mkdir("here");
+      let _ = std::os::unix::fs::symlink("../store/foo.torrent", sb.path("here/foo.torrent"));
+      sb.write(if good_beside_link { "here/foo" } else { "store/foo" }, b"0123456789");
+      sb.write(if good_beside_link { "store/foo" } else { "here/foo" }, b"0123456780");
+      Cmd::new(&ctx.imdl, &["torrent", "verify", "--input", "here/foo.torrent"]).cwd(&sb.root).run()
+    });
+  }
+  // a torrent of several megabytes through standard input and through a pipe opened by path
+  let big: Vec<u8> = (0..(5usize << 20)).map(|i| (i * 7 + i / 251) as u8).collect();
+  let big_t = single("big", 16, &big, 0);
+  for via in ["stdin", "dev-stdin-path"] {
+    run(&format!("six-megabyte-torrent-through-{via}"), 0, vec![], &|sb| {
+      sb.write("big", &big);
+      let input = if via == "stdin" { "-" } else { "/dev/stdin" };
+      Cmd::new(&ctx.imdl, &["torrent", "verify", "--input", input, "--content", "big"]).cwd(&sb.root).stdin(&big_t).timeout_s(300).run()
+    });
+  }
+  // a piece string that is not a whole number of digests
+  run("seven-stray-bytes-after-the-digests", 1, vec![], &|sb| {
+    sb.write("t.torrent", &single("foo", 4, b"0123456789", 7));
+    sb.write("foo", b"0123456789");
+    Cmd::new(&ctx.imdl, &["torrent", "verify", "--input", "t.torrent", "--content", "foo"]).cwd(&sb.root).run()
+  });
+  // names that other platforms would not allow are ordinary names here
+  let odd: Vec<(String, Vec<u8>)> = ["Episode 1: Pilot.mkv", "what?.txt", "star*.bin", "trailing space ", "pipe|name", "quote\"d", "<angle>", "AUX", "a\\b"].iter().enumerate().map(|(i, n)| (n.to_string(), vec![i as u8; 5])).collect();
+  run("names-illegal-elsewhere", 0, vec![], &|sb| {
+    sb.write("t.torrent", &multi("data", 8, &odd));
+    for (n, d) in &odd {
+      sb.write(&format!("data/{n}"), d);
+    }
+    Cmd::new(&ctx.imdl, &["torrent", "verify", "--input", "t.torrent", "--content", "data"]).cwd(&sb.root).run()
+  });
+  // a listed file a hundred and forty directories deep
+  let deep = format!("{}leaf", "d/".repeat(140));
+  let deep_files = vec![(deep.clone(), b"deep".to_vec()), ("top".to_string(), b"top".to_vec())];
+  run("a-hundred-and-forty-levels-deep", 0, vec![], &|sb| {
+    sb.write("t.torrent", &multi("data", 4, &deep_files));
+    for (n, d) in &deep_files {
+      sb.write(&format!("data/{n}"), d);
+    }
+    Cmd::new(&ctx.imdl, &["torrent", "verify", "--input", "t.torrent", "--content", "data"]).cwd(&sb.root).run()
+  });
 }
 
 /// minimised past failures, always run first
